@@ -95,6 +95,10 @@ def nested(tier):
         t.file("R/A/AA/AAA/aaa1.txt", 4)
         t.file("R/AB/ab1.txt", 5)
         t.file("R/B/b1.txt", 6)
+        # files with the same history-relative path and the same size in a parent and in a nested history
+        t.file("R/x/clip.mov", 7)
+        t.file("R/A/AA/x/clip.mov", 8)
+        t.file("R/B/x/clip.mov", 9)
         cands = ["R/A/AA/AAA", "R/A/AA", "R/A", "R/AB", "R/B"]
         chosen = [c for c in cands if sym.flag("hist_" + c.replace("/", "_"))]
         if len(chosen) > (3 if tier == "quick" else 5):
